@@ -302,16 +302,170 @@ Definition c18_auth_ok (f : list byte -> list byte -> bool) (raw : option (list 
    chunked, both). *)
 Inductive c18_framing := FrNone | FrLen (n : N) | FrChunked.
 
+(* The request as http.ReadRequest hands it to dispatch.  net/http's parser is not modelled: its result
+   is the model's input (the harness reports it for every request of every stream).
+
+   The request-target comes in four forms (RFC 9112 3.2).  ReadRequest decides the form like this:
+     method CONNECT and the target does not start with "/"   -> authority-form: parsed as "http://" ++ target,
+                                                                scheme stripped again (URL.Scheme = "")
+     otherwise url.ParseRequestURI(target):  "*"             -> asterisk-form (URL.Path = "*")
+                                             "/..."          -> origin-form: no scheme, no authority - also
+                                                                for "//host/path" and for CONNECT "/x"
+                                             scheme ":" ...  -> absolute-form (URL.Scheme non-empty; URL.Host
+                                                                may still be empty: "http:///x", "http:opaque")
+   and req.Host = URL.Host, or the Host header field when URL.Host is empty.  dispatch does not look at the
+   form; it is carried (hr_form, with the raw target hr_uri) so that the theorems quantify over it, and
+   [c18_form_ok] states what the parser guarantees about the other fields per form - checked on every
+   request the harness reports. *)
+Inductive c18_form := FOrigin | FAsterisk | FAbsolute | FAuthority.
+
 Record c18_hreq := mkHReq {
-  hr_connect : bool;              (* method == CONNECT *)
-  hr_addr : list byte;            (* host:port the code hands to HyClient.TCP (harness: canonical targets) *)
+  hr_method : list byte;          (* req.Method *)
+  hr_uri : list byte;             (* req.RequestURI, the request-target as sent *)
+  hr_form : c18_form;             (* its form, as net/http determined it *)
+  hr_scheme : list byte;          (* req.URL.Scheme *)
+  hr_uhost : list byte;           (* req.URL.Host *)
+  hr_host : list byte;            (* req.Host *)
   hr_pauth : option (list byte);  (* raw Proxy-Authorization value as sent *)
   hr_keepalive : bool;            (* plain request: HTTP/1.1 and (Proxy-)Connection: keep-alive *)
   hr_status : N;                  (* plain request: status the upstream answers with *)
   hr_framing : c18_framing }.     (* declared body framing (CONNECT: ignored by the code) *)
 
 Definition c18_set_framing (fr : c18_framing) (r : c18_hreq) : c18_hreq :=
-  mkHReq (hr_connect r) (hr_addr r) (hr_pauth r) (hr_keepalive r) (hr_status r) fr.
+  mkHReq (hr_method r) (hr_uri r) (hr_form r) (hr_scheme r) (hr_uhost r) (hr_host r) (hr_pauth r)
+         (hr_keepalive r) (hr_status r) fr.
+
+Fixpoint c18_beq (a b : list byte) : bool :=
+  match a, b with
+  | [], [] => true
+  | x :: s, y :: t => Byte.eqb x y && c18_beq s t
+  | _, _ => false
+  end.
+Definition c18_is_nil (a : list byte) : bool := match a with [] => true | _ => false end.
+
+Definition c18_s_connect : list byte := [x43; x4f; x4e; x4e; x45; x43; x54].   (* "CONNECT" *)
+Definition c18_s_http : list byte := [x68; x74; x74; x70].                     (* "http" *)
+Definition c18_s_https : list byte := [x68; x74; x74; x70; x73].               (* "https" *)
+Definition c18_s_80 : list byte := [x38; x30].                                 (* "80" *)
+Definition c18_s_443 : list byte := [x34; x34; x33].                           (* "443" *)
+
+(* req.Method == http.MethodConnect *)
+Definition c18_is_connect (r : c18_hreq) : bool := c18_beq (hr_method r) c18_s_connect.
+
+(* the form ReadRequest gives a (method, request-target) pair *)
+Definition c18_classify (method uri : list byte) : c18_form :=
+  if c18_beq method c18_s_connect then
+    match uri with x2f :: _ => FOrigin | _ => FAuthority end
+  else
+    match uri with
+    | [x2a] => FAsterisk
+    | x2f :: _ => FOrigin
+    | _ => FAbsolute
+    end.
+
+Definition c18_form_eqb (a b : c18_form) : bool :=
+  match a, b with
+  | FOrigin, FOrigin | FAsterisk, FAsterisk | FAbsolute, FAbsolute | FAuthority, FAuthority => true
+  | _, _ => false
+  end.
+
+(* what the parser guarantees: origin-/asterisk-form carry neither scheme nor authority; authority-form
+   has no scheme; absolute-form has one; req.Host is URL.Host whenever that is non-empty *)
+Definition c18_form_ok (r : c18_hreq) : bool :=
+  c18_form_eqb (hr_form r) (c18_classify (hr_method r) (hr_uri r)) &&
+  match hr_form r with
+  | FOrigin | FAsterisk => c18_is_nil (hr_scheme r) && c18_is_nil (hr_uhost r)
+  | FAuthority => c18_is_nil (hr_scheme r)
+  | FAbsolute => negb (c18_is_nil (hr_scheme r))
+  end &&
+  (c18_is_nil (hr_uhost r) || c18_beq (hr_host r) (hr_uhost r)).
+
+(* ---- host:port helpers of net/url and net, as the handlers use them ---- *)
+Fixpoint c18_index (c : byte) (l : list byte) : option nat :=
+  match l with
+  | [] => None
+  | x :: t => if Byte.eqb x c then Some O else option_map S (c18_index c t)
+  end.
+Fixpoint c18_last_index (c : byte) (l : list byte) : option nat :=
+  match l with
+  | [] => None
+  | x :: t =>
+      match c18_last_index c t with
+      | Some i => Some (S i)
+      | None => if Byte.eqb x c then Some O else None
+      end
+  end.
+Definition c18_has (c : byte) (l : list byte) : bool := existsb (Byte.eqb c) l.
+Definition c18_is_digit (b : byte) : bool := (48 <=? b2n b) && (b2n b <=? 57).
+
+(* net/url validOptionalPort: "" or ":" followed by digits only *)
+Definition c18_valid_opt_port (p : list byte) : bool :=
+  match p with [] => true | c :: t => Byte.eqb c x3a && forallb c18_is_digit t end.
+
+(* net/url splitHostPort = (URL.Hostname(), URL.Port()) of URL.Host: split at the last ':' if what follows
+   is an optional port; then strip one pair of square brackets *)
+Definition c18_url_split (hp : list byte) : list byte * list byte :=
+  let '(host, port) :=
+    match c18_last_index x3a hp with
+    | Some i => if c18_valid_opt_port (skipn i hp) then (firstn i hp, skipn (S i) hp) else (hp, [])
+    | None => (hp, [])
+    end in
+  match host with
+  | x5b :: t => if Byte.eqb (last host x00) x5d then (removelast t, port) else (host, port)
+  | _ => (host, port)
+  end.
+Definition c18_url_hostname (hp : list byte) : list byte := fst (c18_url_split hp).
+Definition c18_url_port (hp : list byte) : list byte := snd (c18_url_split hp).
+
+(* net.JoinHostPort: brackets when the host contains a colon *)
+Definition c18_join_host_port (h p : list byte) : list byte :=
+  if c18_has x3a h then [x5b] ++ h ++ [x5d; x3a] ++ p else h ++ [x3a] ++ p.
+
+(* net.SplitHostPort (None = any of its errors) *)
+Definition c18_net_split (hp : list byte) : option (list byte * list byte) :=
+  match c18_last_index x3a hp with
+  | None => None                                                      (* missing port *)
+  | Some i =>
+      match hp with
+      | x5b :: _ =>
+          match c18_index x5d hp with
+          | None => None                                              (* missing ']' *)
+          | Some e =>
+              if Nat.eqb (S e) (length hp) then None                  (* missing port *)
+              else if Nat.eqb (S e) i then
+                if c18_has x5b (skipn 1 hp) then None                 (* unexpected '[' *)
+                else if c18_has x5d (skipn (S e) hp) then None        (* unexpected ']' *)
+                else Some (firstn (e - 1) (skipn 1 hp), skipn (S i) hp)
+              else None                                               (* too many colons / missing port *)
+          end
+      | _ =>
+          if c18_has x3a (firstn i hp) then None                      (* too many colons *)
+          else if c18_has x5b hp then None
+          else if c18_has x5d hp then None
+          else Some (firstn i hp, skipn (S i) hp)
+      end
+  end.
+
+(* handleConnect:  port := req.URL.Port(); if port == "" { port = "80" }
+                   reqAddr := net.JoinHostPort(req.URL.Hostname(), port)
+   - for EVERY URL.Host, the empty one included (CONNECT "/x", CONNECT "" and CONNECT "?q" dial ":80") *)
+Definition c18_connect_addr (r : c18_hreq) : list byte :=
+  let port := c18_url_port (hr_uhost r) in
+  c18_join_host_port (c18_url_hostname (hr_uhost r)) (if c18_is_nil port then c18_s_80 else port).
+
+(* removeExtraHTTPHostPort: the host handleRequest leaves in req.Host and req.URL.Host *)
+Definition c18_plain_host (r : c18_hreq) : list byte :=
+  let host := if c18_is_nil (hr_host r) then hr_uhost r else hr_host r in
+  match c18_net_split host with
+  | Some (h, p) => if c18_beq p c18_s_80 then h else host
+  | None => host
+  end.
+
+(* net/http Transport canonicalAddr of the rewritten URL (ASCII hosts: idnaASCII is the identity) *)
+Definition c18_canonical_addr (scheme host : list byte) : list byte :=
+  let port := c18_url_port host in
+  c18_join_host_port (c18_url_hostname host)
+    (if c18_is_nil port then (if c18_beq scheme c18_s_https then c18_s_443 else c18_s_80) else port).
 
 (* What a variant of dispatch that closes (or reads) req.Body of a CONNECT before the hand-over would
    do to the reader: net/http's body.Close on a Content-Length n body reads and discards up to n bytes
@@ -347,24 +501,55 @@ Definition c18_h_authev (cfg : c18_hcfg) (r : c18_hreq) : list c18_hev * bool :=
       end
   end.
 
+(* handleConnect(conn, req): dial, 200 / 502, relay until the client closes.  It never returns to the loop. *)
+Definition c18_handle_connect (cfg : c18_hcfg) (r : c18_hreq) (tail : c18_pre) : list c18_hev :=
+  HTcp (c18_connect_addr r) ::
+  (if hc_dial_ok cfg then [HReply 200; HRelay (c18_copy_all tail); HClose] else [HReply 502; HClose]).
+
+(* handleRequest(conn, req): events and the keep-alive result.
+     removeExtraHTTPHostPort(req)
+     if req.URL.Scheme == "" || req.URL.Host == "" { 400; return false }      - origin-form, asterisk-form, and
+                                                                                 absolute-form without any host
+     resp, err := s.httpClient.Do(req); err != nil -> 502, false
+   http.Client / Transport: a scheme other than http / https is refused before any dial; otherwise one dial
+   to canonicalAddr(req.URL).  The scripted upstream answers a forwarded request with hr_status and
+   Connection: close; it does not speak TLS, so an https:// exchange fails after the dial. *)
+Definition c18_handle_request (cfg : c18_hcfg) (r : c18_hreq) : list c18_hev * bool :=
+  let host := c18_plain_host r in
+  if c18_is_nil (hr_scheme r) || c18_is_nil host then ([HReply 400], false)
+  else if c18_beq (hr_scheme r) c18_s_http || c18_beq (hr_scheme r) c18_s_https then
+    let addr := c18_canonical_addr (hr_scheme r) host in
+    if negb (hc_dial_ok cfg) then ([HTcp addr; HReply 502], false)
+    else if c18_beq (hr_scheme r) c18_s_https then ([HTcp addr; HReply 502], false)
+    else ([HTcp addr; HReply (hr_status r)], hr_keepalive r)
+  else ([HReply 502], false).
+
+(* one turn of dispatch's for-loop on a request ReadRequest returned: the events, and whether the loop
+   goes on to the next request.  [gated r] = whether the credential check is applied to this request:
+   the code applies it to EVERY request ([c18_gate_all]); the argument exists only so that
+   props/C18.v can state what an exemption by request-target form would break. *)
+Definition c18_http_one (gated : c18_hreq -> bool) (cfg : c18_hcfg) (r : c18_hreq) (tail : c18_pre)
+  : list c18_hev * bool :=
+  let '(aev, ok) := if gated r then c18_h_authev cfg r else ([], true) in
+  if negb ok then (aev ++ [HReply 407; HClose], false)
+  else if c18_is_connect r then (aev ++ c18_handle_connect cfg r tail, false)
+  else
+    let '(ev, ka) := c18_handle_request cfg r in
+    (aev ++ ev ++ (if ka then [] else [HClose]), ka).
+
 (* the for-loop of dispatch over the requests http.ReadRequest yields; [tail] is the reader handed to
    handleConnect (buffered bytes, then the connection) *)
-Fixpoint c18_http_loop (cfg : c18_hcfg) (reqs : list c18_hreq) (tail : c18_pre) : list c18_hev :=
+Fixpoint c18_http_loop_g (gated : c18_hreq -> bool) (cfg : c18_hcfg) (reqs : list c18_hreq) (tail : c18_pre)
+  : list c18_hev :=
   match reqs with
-  | [] => [HClose]                                   (* ReadRequest error (EOF) *)
+  | [] => [HClose]                                   (* ReadRequest error (EOF, malformed request) *)
   | r :: t =>
-      let '(aev, ok) := c18_h_authev cfg r in
-      if negb ok then aev ++ [HReply 407; HClose]
-      else if hr_connect r then
-        aev ++ [HTcp (hr_addr r)] ++
-        (if hc_dial_ok cfg then [HReply 200; HRelay (c18_copy_all tail); HClose]
-         else [HReply 502; HClose])
-      else
-        aev ++ [HTcp (hr_addr r)] ++
-        (if hc_dial_ok cfg then
-           HReply (hr_status r) :: (if hr_keepalive r then c18_http_loop cfg t tail else [HClose])
-         else [HReply 502; HClose])
+      let '(ev, go_on) := c18_http_one gated cfg r tail in
+      if go_on then ev ++ c18_http_loop_g gated cfg t tail else ev
   end.
+
+Definition c18_gate_all (r : c18_hreq) : bool := true.
+Definition c18_http_loop := c18_http_loop_g c18_gate_all.
 
 (* whole connection: header blocks occupy the first h bytes of the stream *)
 Definition c18_http (cfg : c18_hcfg) (reqs : list c18_hreq) (h : nat) (s : c18_script) : list c18_hev :=
